@@ -266,3 +266,87 @@ def gen_errors(seed, tier):
                     b.ops.append({"op": "ecaddlist", "ec": ec, "nillist": 1})
         out.append(b.ops)
     return out
+
+
+KEYS = ["k_int", "k_int64", "k_u8", "k_str", "k_named", "k_sA", "k_sB", "k_p1", "k_p2", "k_align", "k_skip"]
+VALS = ["v1", "v2", "v3", "vtrue", "vfalse", "vL", "vR", "vC", "vbad", "nil"]
+
+
+def gen_props(seed, tier):
+    """C12: set/set-nil over many owners and type-distinct keys, copies, handles, growth (>= 12 columns)."""
+    rng = random.Random(seed * 49979687 + 12)
+    n = 300 if tier == "quick" else 6000
+    out = []
+    for i in range(n):
+        b = GridBuilder(rng)
+        ncols = 0
+        hdr = 0
+        ncv = 0
+        handles = 0
+        keys = rng.sample(KEYS, rng.randint(2, 5))
+        for _ in range(rng.randint(4, 24)):
+            r = rng.random()
+            if r < 0.3:
+                wide = rng.random() < 0.15
+                b.step(maxcells=13 if wide else 3, items=lambda: S("a"),
+                       weights={"headers": 1, "rowitems": 4, "sep": 1, "appendrow": 1, "newrow": 1, "rowadd": 2, "addrow": 2})
+                op = b.ops[-1]
+                if op["op"] == "headers":
+                    hdr = len(op["items"])
+                    ncols = max(ncols, hdr)
+                ncols = max([ncols] + [x["n"] for x in b.rows if x["tbl"]])
+            elif r < 0.38:
+                cells = [(j + 1, c) for j, x in enumerate(b.rows) for c in range(1, x["n"] + 1)]
+                srcs = [{"kind": "cell", "r": a, "c": c} for a, c in cells] + [{"kind": "cellvar", "v": v} for v in range(1, ncv + 1)]
+                srcs += [{"kind": "hcell", "t": 1, "c": c} for c in range(1, hdr + 1)]
+                if srcs:
+                    b.ops.append({"op": "copycell", "from": rng.choice(srcs)})
+                    ncv += 1
+            elif r < 0.45:
+                b.ops.append({"op": "takecol", "t": 1, "n": rng.randint(0, ncols)})
+                handles += 1
+            else:
+                owners = [{"kind": "table", "t": 1}] + [{"kind": "column", "t": 1, "n": c} for c in range(0, ncols + 1)]
+                owners += [{"kind": "row", "r": j + 1} for j in range(len(b.rows))]
+                owners += [{"kind": "cell", "r": j + 1, "c": c} for j, x in enumerate(b.rows) for c in range(1, x["n"] + 1)]
+                owners += [{"kind": "hcell", "t": 1, "c": c} for c in range(1, hdr + 1)]
+                owners += [{"kind": "cellvar", "v": v} for v in range(1, ncv + 1)] * 3
+                owners += [{"kind": "handle", "h": h} for h in range(1, handles + 1)] * 3
+                b.ops.append({"op": "setprop", "owner": rng.choice(owners), "k": rng.choice(keys), "v": rng.choice(VALS)})
+        out.append(b.ops)
+    return out
+
+
+def gen_callbacks(seed, tier):
+    """C13: random registrations (all owner kinds x times x targets, incl. unsupported and foreign)
+    interleaved with building and render passes."""
+    rng = random.Random(seed * 86028121 + 13)
+    n = 300 if tier == "quick" else 6000
+    out = []
+    for i in range(n):
+        b = GridBuilder(rng)
+        ncols = 0
+        hdr = 0
+        ncb = 0
+        for _ in range(rng.randint(4, 16)):
+            r = rng.random()
+            if r < 0.45:
+                b.step(maxcells=3, items=lambda: S("a"))
+                op = b.ops[-1]
+                if op["op"] == "headers":
+                    hdr = len(op["items"])
+                    ncols = max(ncols, hdr)
+                ncols = max([ncols] + [x["n"] for x in b.rows if x["tbl"]])
+            elif r < 0.8 and ncb < 4:
+                owners = [{"kind": "table", "t": 1}] * 3 + [{"kind": "foreign"}]
+                owners += [{"kind": "column", "t": 1, "n": c} for c in range(0, ncols + 1)]
+                owners += [{"kind": "row", "r": j + 1} for j in range(len(b.rows))]
+                owners += [{"kind": "cell", "r": j + 1, "c": c} for j, x in enumerate(b.rows) for c in range(1, x["n"] + 1)]
+                owners += [{"kind": "hcell", "t": 1, "c": c} for c in range(1, hdr + 1)]
+                b.ops.append({"op": "regcb", "t": 1, "owner": rng.choice(owners), "time": rng.choice(["add", "pre", "render", "post"]),
+                              "target": rng.choice(["itself", "cell", "row"]), "fails": 0})
+                ncb += 1
+            else:
+                b.ops.append({"op": "rendercbs", "t": 1})
+        out.append(b.ops)
+    return out
